@@ -244,7 +244,7 @@ def producer_setup(interp, path):
     me = Inst("MultiTanProcessor", module="toasty.multi_tan", fields={"_collection": coll, "_descs": Opaque("descs", "descs"),
                                                                    "_n_todo": z3.Int(fresh_name("n_todo"))})
     par = z3.Int(fresh_name("parallel"))
-    path.assume(par >= 2)
+    path.assume(par >= 1)
     from pyvc.values import PyDict
     return {"self": me, "pio": _pio_inst(case), "cli_progress": False, "parallel": par, "kwargs": PyDict({})}
 
